@@ -47,6 +47,17 @@ struct PAgent {
     tm: MapLane<i64, i64>,
     s: ValueStore<i64>,
     ms: MapStore<i64, i64>,
+    // two more value stores that hold what `s` holds: whatever identifiers the runtime gives the items, some value
+    // store shares its number with a value lane (lanes and stores are numbered separately); they are checked here
+    // and left out of the model's log
+    s2: ValueStore<i64>,
+    s3: ValueStore<i64>,
+}
+fn ps2(a: &PAgent) -> &ValueStore<i64> {
+    &a.s2
+}
+fn ps3(a: &PAgent) -> &ValueStore<i64> {
+    &a.s3
 }
 
 fn ps(a: &PAgent) -> &ValueStore<i64> {
@@ -116,7 +127,8 @@ impl PLifecycle {
     // the stores follow the persistent lanes (shifted, so that they are told apart)
     #[on_event(v)]
     fn v_event(&self, context: HandlerContext<PAgent>, value: &i64) -> impl EventHandler<PAgent> + '_ {
-        context.set_value(ps, *value + 1)
+        let x = *value + 1;
+        context.set_value(ps, x).followed_by(context.set_value(ps2, x)).followed_by(context.set_value(ps3, x))
     }
     #[on_update(m)]
     fn m_update(&self, context: HandlerContext<PAgent>, _map: &HashMap<i64, i64>, key: i64, _prev: Option<i64>, new_value: &i64) -> impl EventHandler<PAgent> + '_ {
@@ -594,11 +606,21 @@ fn main() {
     for i in 0..args.cases {
         let n = rng.range(1, 10) as usize;
         let mut next = 100i64;
+        let mut last_v: Option<i64> = None;
         let cmds: Vec<Cmd> = (0..n)
             .map(|_| {
                 next += 10;
                 match rng.below(10) {
-                    0 | 1 | 2 => Cmd::SetV(next),
+                    // (a third of the sets give the lane the value its mirror store already holds: the previous
+                    // value + 1, so that two items report the same bytes one after the other)
+                    0 | 1 | 2 => {
+                        let x = match last_v {
+                            Some(p) if rng.below(3) == 0 => p + 1,
+                            _ => next,
+                        };
+                        last_v = Some(x);
+                        Cmd::SetV(x)
+                    }
                     3 => Cmd::SetT(next),
                     4 | 5 | 6 => Cmd::Upd(rng.range(0, 3) as i64, next),
                     7 => Cmd::Rem(rng.range(0, 3) as i64),
@@ -626,11 +648,22 @@ fn main() {
         let mut asked = out.asked.clone();
         asked.sort();
         asked.dedup();
-        if asked != vec!["m".to_string(), "ms".to_string(), "s".to_string(), "v".to_string()] {
+        if asked != vec!["m".to_string(), "ms".to_string(), "s".to_string(), "s2".to_string(), "s3".to_string(), "v".to_string()] {
             failures.push(format!("case {}: store ids were requested for {:?} (persistent items are m, ms, s, v)", i, asked));
         }
         let _ = out.clean_stop_ok;
-        let entries: Option<Vec<String>> = out.log.iter().map(coq_entry).collect();
+        // the extra mirror stores: each must have been handed exactly what `s` was handed, in order
+        let puts = |name: &str| -> Vec<Vec<u8>> {
+            out.log.iter().filter_map(|e| match e { LogEntry::Store(StoreOp::Put(n, v)) if n == name => Some(v.clone()), _ => None }).collect()
+        };
+        for extra in ["s2", "s3"] {
+            if puts(extra) != puts("s") {
+                failures.push(format!("case {}: the store {} was handed {:?}, the store s (set to the same values by the same handler) {:?} (commands {:?})", i, extra, puts(extra).iter().map(|b| String::from_utf8_lossy(b).to_string()).collect::<Vec<_>>(), puts("s").iter().map(|b| String::from_utf8_lossy(b).to_string()).collect::<Vec<_>>(), cmds));
+            }
+        }
+        let is_extra = |e: &LogEntry| matches!(e, LogEntry::Store(StoreOp::Put(n, _)) | LogEntry::Store(StoreOp::Delete(n)) if n == "s2" || n == "s3");
+        let model_log: Vec<LogEntry> = out.log.iter().filter(|e| !is_extra(e)).cloned().collect();
+        let entries: Option<Vec<String>> = model_log.iter().map(coq_entry).collect();
         let entries = match entries {
             Some(e) => e,
             None => {
@@ -647,6 +680,8 @@ fn main() {
         points.dedup();
         let mut crashes = vec![];
         for p in points {
+            // (the position in the model's log, which leaves the extra stores out)
+            let at = out.log[..p].iter().filter(|e| !is_extra(e)).count();
             let mut content = Content::default();
             for e in &out.log[..p] {
                 if let LogEntry::Store(op) = e {
@@ -667,7 +702,7 @@ fn main() {
                     };
                     crashes.push(format!(
                         "{{| cr_at := {}; cr_v := {}; cr_t := {}; cr_m := {}; cr_tm := {}; cr_s := {}; cr_ms := {}; cr_sync_v := {}; cr_sync_t := {}; cr_sync_m := {}; cr_sync_tm := {} |}}",
-                        p,
+                        at,
                         zi(restored.v),
                         zi(restored.t),
                         zz(&restored.m),
@@ -727,7 +762,7 @@ fn main() {
         let mut asked = out.asked.clone();
         asked.sort();
         asked.dedup();
-        if asked != vec!["ms".to_string(), "s".to_string()] {
+        if asked != vec!["ms".to_string(), "s".to_string(), "s2".to_string(), "s3".to_string()] {
             failures.push(format!("transient-by-configuration case {}: store ids were requested for {:?} (only the stores ms, s are persistent)", i, asked));
         }
         let mut content = Content::default();
@@ -736,7 +771,7 @@ fn main() {
                 let name = match op {
                     StoreOp::Put(n, _) | StoreOp::Delete(n) | StoreOp::Update(n, _, _) | StoreOp::Remove(n, _) | StoreOp::Clear(n) => n.clone(),
                 };
-                if name != "s" && name != "ms" {
+                if name != "s" && name != "ms" && name != "s2" && name != "s3" {
                     failures.push(format!("transient-by-configuration case {}: the state of the transient lane {} was handed to the store ({:?}; commands {:?})", i, name, op, cmds));
                 }
                 content.apply(op);
@@ -771,7 +806,7 @@ fn main() {
     let meta = J::obj(vec![
         ("evaluations", J::I(w.len() as i128)),
         ("distinct_nontrivial", J::I(nontrivial as i128)),
-        ("rule", J::s("1-10 commands (set on a persistent and a transient value lane; update / remove / clear on a persistent map lane, update on a transient one; the lifecycle copies the persistent lanes into a value store and a map store) sent by a linked remote to a real agent (derived lane model, AgentModel) running in the real agent runtime (run_agent_with_store) over a recording NodePersistence; a second remote in a third of the cases; the merged log of store operations and frames read by the remotes is checked (every published state was handed to the store first; the store ends up with the state the commands imply); then the agent is stopped (cleanly in a third of the cases, killed otherwise) and, for the end of the log and 3 (quick) / 6 (thorough) random crash points, restarted on the store as it was at that point: what on_start sees in every lane and store and what a sync reports must be the state handed to the store up to there, transient items at their defaults; a further family (real code only) runs the agent with default_lane_config.transient = true, which makes every lane transient: no lane state may reach the store, store ids are asked for the stores only, after the restart every lane is at its default and the stores are as handed over")),
+        ("rule", J::s("1-10 commands (set on a persistent and a transient value lane; update / remove / clear on a persistent map lane, update on a transient one; the lifecycle copies the persistent lanes into a value store and a map store, and the value also into two further value stores that are checked outside the model) sent by a linked remote to a real agent (derived lane model, AgentModel) running in the real agent runtime (run_agent_with_store) over a recording NodePersistence; a second remote in a third of the cases; the merged log of store operations and frames read by the remotes is checked (every published state was handed to the store first; the store ends up with the state the commands imply); then the agent is stopped (cleanly in a third of the cases, killed otherwise) and, for the end of the log and 3 (quick) / 6 (thorough) random crash points, restarted on the store as it was at that point: what on_start sees in every lane and store and what a sync reports must be the state handed to the store up to there, transient items at their defaults; a further family (real code only) runs the agent with default_lane_config.transient = true, which makes every lane transient: no lane state may reach the store, store ids are asked for the stores only, after the restart every lane is at its default and the stores are as handed over")),
         ("structures", J::counts(&kinds)),
         ("samples", J::A(samples)),
         ("direct_failures", J::A(failures.iter().take(40).map(|f| J::s(f.chars().take(600).collect::<String>())).collect())),
